@@ -205,7 +205,62 @@ def g_ray(rs, nd):
             {"cls": cls, "scls": scls, "shape": shape, "honor": honor})
 
 
+def g_solve_list(rs, nd):
+    k, args, meta = g_fteik(rs, nd)
+    slow = args[0]
+    d = args[1:1 + nd]
+    cells = slow.shape
+    n = int(rs.randint(1, 4))
+    srcs = []
+    for _ in range(n):
+        if rs.rand() < 0.1:
+            srcs.append(gens.outside_point(rs, [0.0] * nd, [d[a] * cells[a] for a in range(nd)])[0])
+        else:
+            srcs.append(list(gens.rand_source_rel(rs, cells, d)[0]))
+    kk = "Fteik2d.solve2d_n" if nd == 2 else "Fteik3d.solve3d_n"
+    return kk, [slow] + list(d) + [np.array(srcs, dtype=float), args[-2], args[-1]], dict(meta, n=n)
+
+
+def g_interp_list(rs, nd, vint=False):
+    if vint:
+        k, args, meta = g_vinterp(rs, nd)
+        axes, v = args[:nd], args[nd]
+        src = args[nd + 1 + nd: nd + 1 + 2 * nd]
+        s, fval = args[-2], args[-1]
+    else:
+        k, args, meta = g_interp(rs, nd)
+        axes, v, fval = args[:nd], args[nd], args[-1]
+    n = int(rs.randint(1, 5))
+    q = np.array([gens.query_point(rs, axes)[0] for _ in range(n)], dtype=float)
+    if vint:
+        kk = "Vinterp2d.vinterp2d_n" if nd == 2 else "Vinterp3d.vinterp3d_n"
+        return kk, axes + [v, q, np.array(src, dtype=float), s, fval], dict(meta, n=n)
+    kk = "Interp2d.interp2d_n" if nd == 2 else "Interp3d.interp3d_n"
+    return kk, axes + [v, q, fval], dict(meta, n=n)
+
+
+def g_ray_list(rs, nd):
+    k, args, meta = g_ray(rs, nd)
+    axes = args[:nd]
+    n = int(rs.randint(1, 4))
+    pts = [args[2 * nd]]
+    for _ in range(n - 1):
+        pts.append(np.array(gens.query_point(rs, axes, cls=rs.choice(["interior", "node", "face", "outside"], p=[.5, .2, .2, .1]))[0]))
+    kk = "Ray2d.ray2d_n" if nd == 2 else "Ray3d.ray3d_n"
+    new = list(args)
+    new[2 * nd] = np.array(pts, dtype=float)
+    return kk, new, dict(meta, n=n)
+
+
 GROUPS = {
+    "solve2d_list": lambda rs: g_solve_list(rs, 2),
+    "solve3d_list": lambda rs: g_solve_list(rs, 3),
+    "interp2d_list": lambda rs: g_interp_list(rs, 2),
+    "interp3d_list": lambda rs: g_interp_list(rs, 3),
+    "vinterp2d_list": lambda rs: g_interp_list(rs, 2, True),
+    "vinterp3d_list": lambda rs: g_interp_list(rs, 3, True),
+    "ray2d_list": lambda rs: g_ray_list(rs, 2),
+    "ray3d_list": lambda rs: g_ray_list(rs, 3),
     "interp2d": lambda rs: g_interp(rs, 2),
     "interp3d": lambda rs: g_interp(rs, 3),
     "vinterp2d": lambda rs: g_vinterp(rs, 2),
